@@ -271,7 +271,7 @@ class LocusPrior:
         return character.as_allelic(chars[:, idx], self.alleles)
 
 
-
+class LocusPrior:
     def from_variant_record(cls, record, use_snvpos=False, frequency_tag=None, allele_filter=None, masked_reference_flag='REFMASKED'):
 
         """Generate a locusPrior object with reference and variants from a known MNP."""
@@ -316,7 +316,7 @@ class LocusPrior:
 
                 raise ValueError(f"Field '{frequency_tag}' does not match number of alleles 'n_alleles'.")
 
-            frequencies = np.array(frequencies)
+            frequencies = np.array(frequencies, dtype=float)
 
         else:
 
